@@ -22,9 +22,23 @@ import CotengraVerif.Lemmas.SsaToLinearLemmas
   (core.py:3968-4077, 4100-4109) on the set of childless nodes, partitioner = oracle; the three
   short-circuits of `kahypar_subgraph_find_membership` (path_kahypar.py:69-98).
 
+* `Model/ContractNodes.lean` — `contract_nodes` for three or more nodes with the inner path finder
+  as the oracle (`contractNodes`, core.py:1343-1399: `find_path` on the legs of the nodes, replay of
+  the returned linear path with `contract_nodes` as the merge, `(parent,) = temp_nodes`),
+  `from_path` with steps of any arity built on it (`fromLinearK`), `ssa_to_linear`
+  (path_basic.py:821-843: `bisect_left`, `con.sort()`, pops from the back, `IndexError` kept),
+  `RandomOptimizer.__call__` (path_random.py:25-35) with the PRNG draws as the oracle.
+* `Model/BestSoFar.lean` — what `RandomGreedyOptimizer` keeps between calls
+  (`best_ssa_path / best_flops`, path_basic.py:1457-1458, 1519-1523) and what a preset name is bound to
+  (a function building its optimizer per call / one shared instance); `Props/C05Facts.lean` holds the
+  closed obligations over the table regenerated from the live preset registry.
+
 **Not modelled**: the scores and numeric choices of every optimizer, native kahypar, the
-`children`-dict mechanics inside `contract_nodes` that keep `tree.childless` in step (the real
-trees are checked by `checkTree` instead), `edge_path_to_ssa`.
+`children`-dict mechanics inside `contract_nodes_pair` that keep `tree.childless` in step (the
+childless set after every iteration of `build_divide` is compared with `divideStep`, the real trees
+are checked by `checkTree`), the nested case of `get_incomplete_nodes` (childless nodes inside
+childless nodes; the flat case after a partial `from_path` is `fromLinearK … false`),
+`edge_path_to_ssa`, k-ary steps of SSA paths (`fromLinearK` is the linear discipline).
 -/
 namespace Cotengra.C05
 open Cotengra Cotengra.Path
